@@ -80,7 +80,8 @@ def check_one(ctx, res, seed, st, samples, distinct):
                 keep.append(c)
         cases = keep
     r = S.membership(res, cases, "c01")
-    total, plain = S.theorem_scope(res)
+    total, plain, envb = S.theorem_scope(res)
+    st["derive_layer_theorem_hypothesis_holds_of_subenvironment"] = bool(envb) and st.get("derive_layer_theorem_hypothesis_holds_of_subenvironment", True)
     st["corpus_definitions"] = st.get("corpus_definitions", 0) + total
     st["definitions_inside_derive_layer_theorem"] = st.get("definitions_inside_derive_layer_theorem", 0) + plain
     bodies = S.bodies_ok(res)
